@@ -345,6 +345,7 @@ def model_runs(case, base_res):
         run, env, rec = install_model(
             {p: r[0] for p, r in base_res.items()}, env, rec, case["allow"], case.get("installer", "ok") == "ok", case.get("_sw", ())
         )
+        run["persisted"] = dict(run["record"])
         runs.append(run)
     return runs
 
@@ -454,6 +455,16 @@ async def execute(case, hass):
             entry = MockConfigEntry(domain=DOMAIN, data=data)
             entry.add_to_hass(hass)
             await hass.async_block_till_done()
+            # what Home Assistant was told to store (a restart reloads this, not the in-memory dictionary)
+            persisted = {"rec": dict(data.get(CONF_INSTALLED_PACKAGES, {}))}
+            orig_update = hass.config_entries.async_update_entry
+
+            def recording_update(entry=None, *a, **kw):
+                if kw.get("data") is not None and CONF_INSTALLED_PACKAGES in kw["data"]:
+                    persisted["rec"] = dict(kw["data"][CONF_INSTALLED_PACKAGES])
+                return orig_update(entry, *a, **kw) if entry is not None else orig_update(*a, **kw)
+
+            hass.config_entries.async_update_entry = recording_update
             for _ in range(case.get("runs", 2)):
                 calls.clear()
                 before = dict(env)
@@ -468,10 +479,13 @@ async def execute(case, hass):
                 runs.append({
                     "installer": canon_args([r for c in calls for r in c]),
                     "record": {p: canon(v) for p, v in sorted(rec_after.items())},
+                    "persisted": {p: canon(v) for p, v in sorted(persisted["rec"].items())},
                     "host_changed": sorted(p for p in before if before[p] is not None and p not in rec_before and env.get(p) != before[p]),
                     "error": err,
                 })
     finally:
+        if "async_update_entry" in vars(hass.config_entries):
+            del hass.config_entries.async_update_entry
         shutil.rmtree(cfg, ignore_errors=True)
     return resolutions, orders, arrs, runs, exhaustive
 
@@ -569,6 +583,7 @@ def diff_packages(exp, obs):
             return None
         dd(dict(map(tuple, re_["installer"])), dict(map(tuple, ro["installer"])))
         dd(re_["record"], ro["record"])
+        dd(re_["persisted"], ro.get("persisted", ro["record"]))
         names.update(set(re_["host_changed"]) ^ set(ro["host_changed"]))
     return names
 
@@ -596,7 +611,7 @@ class C20(ModelCheck):
         "version = environment; install step: nothing unless allowed, not installed -> passed to the installer, installed "
         "and unrecorded -> never, recorded but changed by somebody else -> untouched and forgotten, recorded and "
         "unchanged -> only when the pin differs by version equality, record afterwards = previous record + what was "
-        "passed; laws: repeat run installs nothing, host packages untouched. Exhaustive part: every multiset of <= 3 "
+        "passed, and the record handed to Home Assistant for storage (async_update_entry) equals the in-memory one after every run; laws: repeat run installs nothing, host packages untouched. Exhaustive part: every multiset of <= 3 "
         "(quick) / <= 4 (thorough) lines from a 9-line alphabet x every split over two files x 8 environment "
         "combinations. Non-trivial = one package is mentioned (pin, unpinned, unsupported or malformed line) in >= 2 "
         "files and those mentions are not all the same line; distinct by case content."
@@ -784,7 +799,7 @@ class C20(ModelCheck):
         else:
             part = "laws"
             for i, (re_, ro) in enumerate(zip(e["runs"], o["runs"])):
-                for key in ("error", "installer", "record", "host_changed"):
+                for key in ("error", "installer", "record", "persisted", "host_changed"):
                     if re_[key] != ro[key]:
                         part = f"run{i + 1}-{key}"
                         break
